@@ -285,6 +285,11 @@ def _battery_temporal(ctx, h, S, rng, chk, full):
         _check_snapshots(chk, sub, S, [k for k in S.edges if a <= k[0] < b], "subhypergraph(window)")
     sub = call(h.subhypergraph)
     _check_snapshots(chk, sub, S, list(S.edges), "subhypergraph()")
+    sub_all = call(h.subhypergraph, None, True)  # add_all_nodes=True: the hyperedge clause is the same
+    _check_snapshots(chk, sub_all, S, list(S.edges), "subhypergraph(add_all_nodes=True)")
+    if isinstance(sub_all, dict) and any(set(g.get_nodes()) != set(S.nodes) for g in sub_all.values()):
+        # documented ("all the nodes of the Temporal Hypergraph"), not part of C03's statement: counted, never judged
+        ctx.note("diagnostic:subhypergraph(add_all_nodes=True)-snapshot-lacks-nodes-of-other-times")
     if isinstance(sub, dict) and sub and rng.random() < 0.3:
         # the caller owns what it was handed: editing it must not change the next answer
         mark = "__caller_edit__" if any(isinstance(n, str) for n in S.nodes) else -424242
